@@ -33,6 +33,7 @@ type Check struct {
 	Run        func(c *Ctx)                           // executed in every worker
 	Replay     func(c *Ctx, r json.RawMessage) string // re-execute one recorded case; returns the violated clause or ""
 	Race       bool                                   // needs the -race build (informational for bin/check)
+	RaceRun    func(c *Ctx)                           // executed in every worker of the -race build (schedule exploration under the race detector)
 	Finalize   func(c *Ctx, merged *Result)           // parent-side cross-shard checks (optional)
 	Collapse   bool                                   // violations of one clause collapse into the shortest signature (history searches)
 	Journal    bool                                   // workers journal the case they are about to run; a worker that dies is attributed and resumed
@@ -207,6 +208,14 @@ func main() {
 		i, _ := strconv.Atoi(os.Args[4])
 		n, _ := strconv.Atoi(os.Args[5])
 		os.Exit(runWorker(os.Args[2], os.Args[3], i, n, os.Args[6]))
+	case "raceworker":
+		if len(os.Args) < 7 {
+			usage()
+		}
+		i, _ := strconv.Atoi(os.Args[4])
+		n, _ := strconv.Atoi(os.Args[5])
+		raceMode = true
+		os.Exit(runWorker(os.Args[2], os.Args[3], i, n, os.Args[6]))
 	case "replay":
 		if len(os.Args) < 3 {
 			usage()
@@ -223,6 +232,8 @@ func main() {
 		usage()
 	}
 }
+
+var raceMode bool
 
 func usage() {
 	fmt.Fprintln(os.Stderr, "usage: h run <ID> <tier> | h worker <ID> <tier> <i> <n> <out> | h replay <file> | h list")
@@ -334,7 +345,17 @@ func runWorker(id, tier string, i, n int, out string) int {
 				os.Exit(4)
 			}
 		}()
-		ck.Run(c)
+		if raceMode {
+			if !vrt.RaceEnabled {
+				panic("raceworker needs the -race build")
+			}
+			c.initRaceLog()
+			if ck.RaceRun != nil {
+				ck.RaceRun(c)
+			}
+		} else {
+			ck.Run(c)
+		}
 	}()
 	vrt.CurrentCase = ""
 	write()
@@ -455,19 +476,44 @@ func runParent(id, tier string) int {
 	defer os.RemoveAll(tmp)
 	self, _ := os.Executable()
 	var wg sync.WaitGroup
-	codes := make([]int, n)
+	var codes []int
 	deadline := time.Now().Add(budget(ck, tier))
+	raceBin := os.Getenv("VERIF_RACE_BIN")
+	type job struct {
+		bin, cmd string
+		i        int
+		out      string
+	}
+	var jobs []job
+	if os.Getenv("VERIF_ONLY_RACE") == "" {
+		for i := 0; i < n; i++ {
+			jobs = append(jobs, job{self, "worker", i, fmt.Sprintf("%s/w%d.json", tmp, i)})
+		}
+	}
+	if ck.RaceRun != nil {
+		if raceBin == "" {
+			fmt.Fprintln(os.Stderr, "HARNESS-ERROR: the race tier of this check needs VERIF_RACE_BIN (run through bin/check)")
+			return 2
+		}
+		for i := 0; i < n; i++ {
+			jobs = append(jobs, job{raceBin, "raceworker", i, fmt.Sprintf("%s/r%d.json", tmp, i)})
+		}
+	}
+	codes = make([]int, len(jobs))
+	sem := make(chan struct{}, n)
 	var extraMu sync.Mutex
 	var extra []*Violation
-	for i := 0; i < n; i++ {
+	for ji, jb := range jobs {
 		wg.Add(1)
-		go func(i int) {
+		go func(i int, jb job) {
 			defer wg.Done()
-			out := fmt.Sprintf("%s/w%d.json", tmp, i)
+			sem <- struct{}{}
+			defer func() { <-sem }()
+			out := jb.out
 			resume := int64(0)
 			for attempt := 0; attempt < 40; attempt++ {
-				cmd := exec.Command(self, "worker", id, tier, strconv.Itoa(i), strconv.Itoa(n), out)
-				cmd.Env = append(os.Environ(), "GOMAXPROCS="+env("VERIF_WORKER_PROCS", "1"), "GORACE=halt_on_error=0 log_path="+tmp+"/race"+strconv.Itoa(i),
+				cmd := exec.Command(jb.bin, jb.cmd, id, tier, strconv.Itoa(jb.i), strconv.Itoa(n), out)
+				cmd.Env = append(os.Environ(), "GOMAXPROCS="+env("VERIF_WORKER_PROCS", "1"), "GORACE=halt_on_error=0 exitcode=0 history_size=3 log_path="+tmp+"/race"+strconv.Itoa(jb.i),
 					"VERIF_DEADLINE_UNIX="+strconv.FormatInt(deadline.Unix(), 10))
 				if resume > 0 {
 					cmd.Env = append(cmd.Env, "VERIF_RESUME="+strconv.FormatInt(resume, 10))
@@ -520,13 +566,13 @@ func runParent(id, tier string) int {
 				resume = j.Idx + 1
 				codes[i] = 0
 			}
-		}(i)
+		}(ji, jb)
 	}
 	wg.Wait()
 	total := newResult()
 	harnessErr := false
-	for i := 0; i < n; i++ {
-		b, err := os.ReadFile(fmt.Sprintf("%s/w%d.json", tmp, i))
+	for i := range jobs {
+		b, err := os.ReadFile(jobs[i].out)
 		if err != nil {
 			fmt.Fprintf(os.Stderr, "worker %d produced no result (exit %d)\n", i, codes[i])
 			harnessErr = true
